@@ -151,6 +151,8 @@ def main(out_path):
     # ---- simple types -----------------------------------------------------------------------
     stypes = [c for n, c in vars(ST).items() if isinstance(c, type) and issubclass(c, ST.XSDSimpleType)
               and c is not ST.XSDSimpleType]
+    if os.environ.get('MXV_ORDER') == 'reverse':
+        stypes = list(reversed(stypes))
     simple = {}
     for T in stypes:
         r = {'cls': T.__name__}
